@@ -3,6 +3,7 @@
 From Coq Require Import List ZArith Bool String.
 Import ListNotations.
 Require Import Base Prog Sig Interp Model Scenario ObjModel ScnObj ObjPin Compose Introspect.
+Require ExtractCode Extractor ExtractRefine.
 
 (* for a plain function decorated by any non-empty sequence of deal decorators (stacked or chained: C09_chain_is_stacking):
    get_contracts reports exactly one record per applied validator -- kinds in the order pre, post, ensure, raises, reason,
@@ -44,6 +45,30 @@ Theorem C14_reports_registry : forall n h p t f,
   (order_records (r_vals (get_reg h t)) ++ match r_patcher (get_reg h t) with Some q => [RHas q] | None => [] end)%list.
 Proof. exact introspection_reports_registry. Qed.
 Print Assumptions C14_reports_registry.
+
+(* the tie to the source: the statements of introspection.get_contracts / unwrap regenerated from deal/introspection/_extractor.py on
+   every run (Gen/Extractor.v), run by Sem/ExtractCode.v, are the functions the theorems above are about -- for every heap, function
+   object, seen-set and fuel; so C14_exact holds of the regenerated code *)
+Theorem C14_code_refines_model : forall fuel h func seen,
+  ExtractCode.exec_get_contracts fuel (ExtractCode.x_loop Extractor.code) h func seen = get_contracts fuel h func seen.
+Proof. exact ExtractRefine.exec_get_contracts_is_get_contracts. Qed.
+Theorem C14_code_unwrap : forall h func,
+  ExtractCode.exec_unwrap (ExtractCode.x_unwrap Extractor.code) h func None = Some (unwrap h func).
+Proof. exact ExtractRefine.exec_unwrap_is_unwrap. Qed.
+Theorem C14_code_exact : forall s l h o n,
+  plain_function h o -> is_deal_step s = true -> forallb is_deal_step l = true ->
+  exists h', apply_steps h o (s :: l) = (h', List.length (h_objs h)) /\
+             ExtractCode.exec_get_contracts (S (S n)) (ExtractCode.x_loop Extractor.code) h' (List.length (h_objs h)) [] =
+             (order_records (vals_of (s :: l)) ++ match last_has (s :: l) None with Some p => [RHas p] | None => [] end)%list /\
+             ExtractCode.exec_unwrap (ExtractCode.x_unwrap Extractor.code) h' (List.length (h_objs h)) None = Some o.
+Proof.
+  intros s l h o n Hp Hs Hl. destruct (introspection_exact s l h o n Hp Hs Hl) as (h' & E & G & U).
+  exists h'. split; [exact E|]. split.
+  - rewrite ExtractRefine.exec_get_contracts_is_get_contracts. exact G.
+  - rewrite ExtractRefine.exec_unwrap_is_unwrap. cbv zeta in U. rewrite U. reflexivity.
+Qed.
+Print Assumptions C14_code_refines_model.
+Print Assumptions C14_code_exact.
 
 Example C14_nonvacuous : plain_function (fst (new_obj heap0 obj0)) 0.
 Proof. cbn. repeat split; auto. Qed.
